@@ -833,6 +833,24 @@ func (h *hist) ownerMint() bool {
 	}
 	h.sendCall(KeyOf(t.Owner), Call{"token.Mint", types.TokenContract, types.ZnnTokenStandard, big.NewInt(0),
 		definition.ABIToken.PackMethodPanic(definition.MintMethodName, t.TokenStandard, amt, to)})
+	// several operations on the SAME token inside one momentum (the token contract receives them back to back, each on
+	// top of the unconfirmed effects of the one before): a burn by the owner and / or an UpdateToken right after the
+	// mint ("mint the last tranche, then lock minting"; ownership handed on)
+	if h.rng.Intn(2) == 0 {
+		if t.IsBurnable && h.rng.Intn(2) == 0 {
+			if bal := h.prev.Bal[t.Owner][t.TokenStandard]; bal != nil && bal.Sign() > 0 {
+				h.sendCall(KeyOf(t.Owner), Call{"token.Burn", types.TokenContract, t.TokenStandard, h.pickAmount(bal),
+					definition.ABIToken.PackMethodPanic(definition.BurnMethodName)})
+			}
+		}
+		owner := t.Owner
+		if h.rng.Intn(3) == 0 {
+			owner = h.users[h.rng.Intn(len(h.users))]
+		}
+		h.sendCall(KeyOf(t.Owner), Call{"token.UpdateToken", types.TokenContract, types.ZnnTokenStandard, big.NewInt(0),
+			definition.ABIToken.PackMethodPanic(definition.UpdateTokenMethodName, t.TokenStandard, owner, h.rng.Intn(2) == 0, h.rng.Intn(4) != 0)})
+		h.out.Count("c01:same-token-operations-in-one-momentum")
+	}
 	return true
 }
 
